@@ -202,6 +202,11 @@ func main() {
 			if p.MLDSA {
 				verifyLine("ctx-altered", ref.Pk, msg, []byte("other"), sig)
 				verifyLine("ctx-256", ref.Pk, msg, vlib.Bytes(rng, 256), sig)
+				// a signature made by the key holder for the message representative 0 || 0 || ctx || msg with a 256-byte ctx, i.e. with the
+				// length octet wrapped: the honest signature of (ctx || msg, empty context).  Only the context-length rule rejects it.
+				c256 := vlib.Bytes(rng, 256)
+				wrapped, _ := ref.Sign(append(append([]byte{0, 0}, c256...), msg...), mldsaref.SignOpts{})
+				verifyLine("ctx-256-wrapped-length", ref.Pk, msg, c256, wrapped)
 				c255 := vlib.Bytes(rng, 255)
 				s255, _ := ref.Sign(p.MPrime(msg, c255), mldsaref.SignOpts{})
 				verifyLine("ctx-255", ref.Pk, msg, c255, s255)
